@@ -358,7 +358,7 @@ package boltz
 //@   modifies bucket.Err, bktHas[bucket.Bucket], bktVal[bucket.Bucket]
 //@   ensures result == bucket
 //@   ensures[skipped] old(bucket.Err) != nil ==> bucket.Err == old(bucket.Err) && kept(bucket)
-//@   ensures[added] old(bucket.Err) == nil && bucket.Err == nil ==> bktHas[bucket.Bucket] == sto(old(bktHas[bucket.Bucket]), prepend(fieldType, str(value)), true) && ciDirty
+//@   ensures[added] old(bucket.Err) == nil && bucket.Err == nil ==> bktHas[bucket.Bucket] == sto(old(bktHas[bucket.Bucket]), prepend(fieldType, str(value)), true) && ciDirty && bktSub[bucket.Bucket][prepend(fieldType, str(value))] == 0
 //@   ensures[failed-atomically] old(bucket.Err) == nil && bucket.Err != nil ==> kept(bucket)
 // listed(h, value): the key set h is exactly the typed elements of value
 //@ define listed(h, value) = forallStr(s, sel(h, s) == exists(k, 0 <= k && k < len(value) && s == prepend(TypeString, value[k])))
